@@ -136,7 +136,9 @@ pub fn run(args: &[String]) {
             }
         }
         // witnesses of listed findings, so that they are reported on every run
-        for t in ["0b123;", "int x = 340282366920938463463374607431768211456;", "x = -0o9;", "def f(mutable array[uint[16], 4, 2] a) {}", "array[int[8], 2] a = {1, 2};"] {
+        for t in ["0b123;", "int x = 340282366920938463463374607431768211456;", "x = -0o9;", "def f(mutable array[uint[16], 4, 2] a) {}", "array[int[8], 2] a = {1, 2};",
+                  // empty parentheses are accepted as an expression (pinned by parse_gate_call_err1_test) and have no translation
+                  "while (()) {}", "gphase();"] {
             if mine() {
                 case(&mut w, "witness", t);
             }
